@@ -22,6 +22,7 @@ import (
 	"sync"
 	"sync/atomic"
 	"testing"
+	"testing/synctest"
 
 	bigbuff "github.com/joeycumines/go-bigbuff"
 	"pgregory.net/rapid"
@@ -413,12 +414,8 @@ func TestPubSubFree(t *testing.T) {
 			// iterators that were never run unsubscribe from an AfterFunc goroutine: wait for the count to settle
 			func() {
 				defer guard("final")
-				for i := 0; i < 100000; i++ {
-					if finalCount = x.Add(0); finalCount == 0 {
-						break
-					}
-					runtime.Gosched()
-				}
+				synctest.Wait() // exact quiescence, however long an AfterFunc goroutine was stalled
+				finalCount = x.Add(0)
 				// the instance still works
 				x.Add(1)
 				done := make(chan int, 1)
